@@ -242,14 +242,14 @@ func writeEvidence(dir string, prop *Property, tier string, seed int, progs []*P
 }
 
 type replayFile struct {
-	Property   string `json:"property"`
-	Obligation string `json:"obligation"`
-	Instance   string `json:"instance"`
-	Verdict    string `json:"verdict"`
-	Detail     string `json:"detail"`
+	Property   string   `json:"property"`
+	Obligation string   `json:"obligation"`
+	Instance   string   `json:"instance"`
+	Verdict    string   `json:"verdict"`
+	Detail     string   `json:"detail"`
 	Sites      []string `json:"sites"`
-	Rule       string `json:"rule"`
-	Tier       string `json:"tier"`
+	Rule       string   `json:"rule"`
+	Tier       string   `json:"tier"`
 }
 
 func sanitize(s string) string {
